@@ -94,32 +94,39 @@ def add (st : St) : St :=
   if b = r.1.cur then { r.1 with localF := fInsert r.1.localF i }
   else { r.1 with buckets := bucketSet r.1.buckets b i }
 
+/-- the bucket after the current one (`current_bucket += 1`, wrapping) -/
+def nextIdx (st : St) : Nat := if st.buckets.length ≤ st.cur + 1 then 0 else st.cur + 1
+
+/-- move to bucket `c` and take its flags (`fetch_and(0)`) -/
+def enter (st : St) (c : Nat) : St :=
+  { st with cur := c, localF := st.buckets.getD c [], buckets := st.buckets.set c [] }
+
 /-- the `loop` of `get_next_stream` (fuel = number of buckets + 1) -/
 def advance : Nat → St → Nat → St × Bool
   | 0, st, _ => (st, false)
   | fuel + 1, st, start =>
-    let c := if st.buckets.length ≤ st.cur + 1 then 0 else st.cur + 1
-    let st1 := { st with cur := c, localF := st.buckets.getD c [], buckets := st.buckets.set c [] }
-    if st1.localF ≠ [] then (st1, true)
-    else if start = c then (st1, false)
-    else advance fuel st1 start
+    if (enter st (nextIdx st)).localF ≠ [] then (enter st (nextIdx st), true)
+    else if start = nextIdx st then (enter st (nextIdx st), false)
+    else advance fuel (enter st (nextIdx st)) start
+
+/-- `LocalFlags::get_next` on `local_flags` -/
+def popMin (st : St) : St × Option Nat :=
+  match fMin st.localF with
+  | some i => ({ st with localF := fErase st.localF i }, some i)
+  | none => (st, none)
+
+/-- `fetch_or(queue_flags.get_and_clear())` into the current bucket -/
+def flush (st : St) : St :=
+  if st.queueF ≠ [] then
+    { st with buckets := st.buckets.modify st.cur (fun s => fUnion s st.queueF), queueF := [] }
+  else st
 
 /-- `get_next_stream` -/
 def getNext (st : St) : St × Option Nat :=
-  if st.localF ≠ [] then
-    match fMin st.localF with
-    | some i => ({ st with localF := fErase st.localF i }, some i)
-    | none => (st, none)
-  else
-    let st1 := if st.queueF ≠ [] then
-        { st with buckets := st.buckets.modify st.cur (fun s => fUnion s st.queueF), queueF := [] }
-      else st
-    let r := advance (st1.buckets.length + 1) st1 st1.cur
-    if r.2 then
-      match fMin r.1.localF with
-      | some i => ({ r.1 with localF := fErase r.1.localF i }, some i)
-      | none => (r.1, none)
-    else (r.1, none)
+  if st.localF ≠ [] then popMin st
+  else if (advance ((flush st).buckets.length + 1) (flush st) (flush st).cur).2 then
+    popMin (advance ((flush st).buckets.length + 1) (flush st) (flush st).cur).1
+  else ((advance ((flush st).buckets.length + 1) (flush st) (flush st).cur).1, none)
 
 inductive Res
   | item (x : Nat)
@@ -129,24 +136,30 @@ inductive Res
 
 def setSource (st : St) (s : Nat) (f : Source → Source) : St := { st with sources := st.sources.modify s f }
 
+/-- the stream produced an item: re-queue it -/
+def deliver (st : St) (s idx x : Nat) (rest : List Nat) : St :=
+  { setSource st s (fun src => { src with q := rest }) with
+      queueF := fInsert st.queueF idx, delivered := st.delivered ++ [(s, x)] }
+
+/-- the stream is pending: it keeps the waker that flags (current bucket, idx) -/
+def park (st : St) (s idx : Nat) : St := setSource st s (fun src => { src with waker := some (st.cur, idx) })
+
 /-- `poll_next`; the fuel bounds the `while let` loop (every iteration consumes one flag) -/
 def pollNext : Nat → St → St × Res
   | 0, st => (st, .pending)
   | fuel + 1, st =>
-    match getNext st with
-    | (st1, none) => if slabEmpty st1 then (st1, .none) else (st1, .pending)
-    | (st1, some idx) =>
-      let key := idx + st1.cur * bucketSize
-      match slabGet st1 key with
-      | none => pollNext fuel st1
+    match (getNext st).2 with
+    | none => if slabEmpty (getNext st).1 then ((getNext st).1, .none) else ((getNext st).1, .pending)
+    | some idx =>
+      match slabGet (getNext st).1 (idx + (getNext st).1.cur * bucketSize) with
+      | none => pollNext fuel (getNext st).1
       | some s =>
-        match (st1.sources.getD s {}).q with
-        | x :: rest =>
-          ({ setSource st1 s (fun src => { src with q := rest }) with
-               queueF := fInsert st1.queueF idx, delivered := st1.delivered ++ [(s, x)] }, .item x)
+        match ((getNext st).1.sources.getD s {}).q with
+        | x :: rest => (deliver (getNext st).1 s idx x rest, .item x)
         | [] =>
-          if (st1.sources.getD s {}).closed then pollNext fuel (slabRemove st1 key)
-          else pollNext fuel (setSource st1 s (fun src => { src with waker := some (st1.cur, idx) }))
+          if ((getNext st).1.sources.getD s {}).closed then
+            pollNext fuel (slabRemove (getNext st).1 (idx + (getNext st).1.cur * bucketSize))
+          else pollNext fuel (park (getNext st).1 s idx)
 
 /-- number of flags that are set anywhere (bounds the loop of `poll_next`) -/
 def flagCount (st : St) : Nat := st.localF.length + st.queueF.length + (st.buckets.map List.length).sum
